@@ -113,6 +113,10 @@ pub struct Session {
     /// Server entities whose client copy carries the history marker, and the model of their `HistA`.
     pub pred: BTreeSet<u64>,
     pub hist: BTreeMap<u64, Vec<(u32, u32)>>,
+    /// The session follows a disconnect of the same client or a server restart (C09 territory).
+    pub after_crash: bool,
+    /// Known finding F20, narrowed: (entity, kind) cells whose value may have been dropped.
+    pub f20_cells: BTreeSet<(u64, Kind)>,
 }
 
 impl Session {
@@ -157,6 +161,8 @@ impl Session {
             conf: BTreeMap::new(),
             pred: BTreeSet::new(),
             hist: BTreeMap::new(),
+            after_crash: false,
+            f20_cells: BTreeSet::new(),
         }
     }
     pub fn up(&self) -> bool {
@@ -176,6 +182,8 @@ pub struct ClientNode {
     pub closed_at: Option<u64>,
     /// Most recent real message per uplink channel (raw material for structure-aware mutation).
     pub last_c2s: Vec<Option<Bytes>>,
+    /// Raw bytes were injected in this client's name at some point of the run.
+    pub ever_injected: bool,
 }
 
 #[derive(Clone, Debug)]
@@ -382,6 +390,7 @@ impl Sim {
                 panicked: false,
                 closed_at: None,
                 last_c2s: vec![None; chans.n_client()],
+                ever_injected: false,
             });
         }
         Sim {
@@ -432,7 +441,7 @@ impl Sim {
     }
 
     pub fn violate(&mut self, prop: &str, oracle: &str, detail: String) {
-        if self.violations.len() < 64 {
+        if self.violations.len() < 256 {
             self.violations.push(Violation {
                 prop: prop.into(),
                 oracle: oracle.into(),
@@ -931,7 +940,8 @@ impl Sim {
             .resource_mut::<RepliconClient>()
             .set_status(RepliconClientStatus::Connected);
         self.session_ctr += 1;
-        let sess = Session::new(self.session_ctr, ce, self.seq + 1, self.step_no, self.server_frames);
+        let mut sess = Session::new(self.session_ctr, ce, self.seq + 1, self.step_no, self.server_frames);
+        sess.after_crash = reconnect || self.stats.faults.contains_key("server_restart");
         self.clients[c].sess = Some(sess);
         if max_size < 1200 {
             self.stats.fault("small_max_size");
@@ -1034,6 +1044,7 @@ impl Sim {
             .resource_mut::<RepliconServer>()
             .insert_received(ce, channel, Bytes::copy_from_slice(bytes));
         self.inject_pending = true;
+        self.clients[c].ever_injected = true;
         self.inject_len = self.inject_len.max(bytes.len());
         self.stats.fault("byzantine_bytes");
         self.last_fault = 6;
@@ -1130,8 +1141,11 @@ impl Sim {
                 m.delivered = true;
                 sess.delivered_ticks.insert(m.tick);
                 if sess.tick0 && sess.upd_delivered == 0 && m.update_tick == 0 {
-                    for (e, _) in &m.ents {
+                    for (e, comps) in &m.ents {
                         sess.f20_ents.insert(*e);
+                        for r in comps {
+                            sess.f20_cells.insert((*e, r.kind));
+                        }
                     }
                 }
             }
@@ -1228,14 +1242,19 @@ impl Sim {
         }
         self.server_frames += 1;
         self.stats.server_frames += 1;
-        self.now_ms += dt_ms as u64;
-        self.stats.sim_ms += dt_ms as u64;
+        // Bevy's virtual clock (what `Res<Time>` is in the library's systems) advances by at most 250 ms per frame.
+        self.now_ms += (dt_ms as u64).min(250);
+        self.stats.sim_ms += (dt_ms as u64).min(250);
         if let Err(p) = res {
             self.server_panicked = true;
             // A panic belongs to convergence (C01) in any case, to the session life-cycle (C09) if a session
             // ended before, and to C06 if any client bytes were injected earlier in the run (the server
             // must keep serving correctly after malformed input).
-            self.violate("C01", "server_panic", format!("server frame panicked: {p}"));
+            // A panic ends the run, so whichever check is running has to report it (C01 and C09 name it
+            // explicitly; for the others it means the behaviour they judge can no longer be observed).
+            for prop in ["C01", "C02", "C03", "C04", "C05", "C07", "C08", "C10", "C11", "C12", "C16"] {
+                self.violate(prop, "server_panic", format!("server frame panicked: {p}"));
+            }
             if self.any_session_restarted() {
                 self.violate("C09", "server_panic", format!("server frame panicked: {p}"));
             }
@@ -1489,10 +1508,11 @@ impl Sim {
         self.stats.client_frames += 1;
         if let Err(p) = res {
             self.clients[c].panicked = true;
-            let prop = if self.any_session_restarted() { "C09" } else { "C01" };
-            self.violate(prop, "client_panic", format!("client {c} frame panicked: {p}"));
-            if prop != "C01" {
-                self.violate("C01", "client_panic", format!("client {c} frame panicked: {p}"));
+            for prop in ["C01", "C02", "C03", "C04", "C05", "C07", "C08", "C10", "C11", "C12", "C16"] {
+                self.violate(prop, "client_panic", format!("client {c} frame panicked: {p}"));
+            }
+            if self.any_session_restarted() {
+                self.violate("C09", "client_panic", format!("client {c} frame panicked: {p}"));
             }
             return;
         }
